@@ -5,7 +5,7 @@ import random
 import shutil
 
 from . import tlaparse
-from .rungrid_world import World, Geometry, scripted_schedule, random_schedule
+from .rungrid_world import World, Geometry, scripted_schedule, random_schedule  # noqa: F401
 
 BIG = 1.0e4
 
@@ -19,7 +19,7 @@ def script_from_behaviour(beh):
         n = a["name"]
         if n in ("StartFresh", "StartRestart"):
             cur = dict(op="run", restart=(n == "StartRestart"), mode=dict(a["mode"]), nit=a["nit"], refine=[],
-                       sched={}, listing=list(a["listing"]) if n == "StartRestart" else None, batch=-1, pend=[],
+                       sched={}, listing=list(a["listing"]) if n == "StartRestart" else None, ri=a.get("ri", -1), batch=-1, pend=[],
                        start=st["start"])
             ops.append(cur)
         elif n == "EndA":
@@ -82,7 +82,8 @@ def execute(ops, geo, workdir, adpt_fac=1, ncpu=2, klist_part=10):
         if o["restart"] and not os.path.exists(os.path.join(w.kdir, "K_list.pickle")):
             break
         res, err = w.run(o["nit"], parallel=m["par"], dump=m["dump"], allow=m["allow"], sym=m["sym"], restart=o["restart"],
-                         adpt_fac=adpt_fac, schedule=sched, ncpu=ncpu, listing_fn=lf, klist_part=klist_part)
+                         adpt_fac=adpt_fac, schedule=sched, ncpu=ncpu, listing_fn=lf, klist_part=klist_part,
+                         restart_iteration=o.get("ri", -1))
         if err:
             errs.append(err)
             break
@@ -90,52 +91,19 @@ def execute(ops, geo, workdir, adpt_fac=1, ncpu=2, klist_part=10):
     return w.events, errs, w
 
 
-def random_ops(rng, geo, niter, adpt_fac, allow_par=True):
-    """an uninterrupted run, then the same calculation stopped/restarted at random places; refinement choices are made
-    by random priorities (the code's own selection decides; the spec accepts any selection)"""
-    sym = rng.random() < 0.7
-
-    def mode(par=None):
-        d = rng.random() < 0.4
-        return dict(par=(rng.random() < 0.5 and allow_par) if par is None else par, dump=d,
-                    allow=d or rng.random() < 0.6, sym=sym, restart=False)
-    ops = []
-    mA = mode()
-    ops.append(dict(op="run", restart=False, mode=mA, nit=niter, refine=[], sched_fn=random_schedule(rng, rng.random() < 0.5)))
-    ops.append(dict(op="markref"))
-    done = rng.randint(0, niter - 1) if niter > 0 else 0
-    mB = mode()
-    mB["allow"] = True
-    ops.append(dict(op="run", restart=False, mode=mB, nit=done, refine=[], sched_fn=random_schedule(rng, rng.random() < 0.5)))
-    while done < niter:
-        n = rng.randint(1, niter - done)
-        m = mode()
-        m["restart"] = True
-        if done + n < niter:
-            m["allow"] = True
-        perm = None
-        ops.append(dict(op="run", restart=True, mode=m, nit=n, refine=[], listing=perm, shuffle=True,
-                        sched_fn=random_schedule(rng, rng.random() < 0.5)))
-        done += n
-    return ops
+def random_mode(rng, sym, allow_par=True):
+    d = rng.random() < 0.4
+    return dict(par=(rng.random() < 0.5 and allow_par), dump=d, allow=d or rng.random() < 0.6, sym=sym, restart=False)
 
 
-def random_priorities(rng, geo, nchoices=12):
-    """random cells get large random priorities so that refinement is scattered"""
-    pr = {}
-    U = geo.U
-    for _ in range(nchoices):
-        lev = rng.randint(0, geo.LMAX - 1)
-        c = (rng.randrange(U), rng.randrange(U) if geo.D == 2 else 0)
-        pr[(c, lev)] = BIG ** rng.randint(1, 3) * rng.choice([1, 2, 3, 5])
-    return pr
-
-
-def execute_random(ops, geo, workdir, rng, adpt_fac=1, ncpu=2):
+def execute_random(geo, workdir, rng, niter, adpt_fac=1, ncpu=2, allow_par=True, back=True):
+    """an uninterrupted run (reference), then the same calculation stopped and restarted at random places (random
+    modes, shuffled directory listings, sometimes restart_iteration going back); refinement choices are made by the
+    code's own selection on pseudo-random priorities (a deterministic function of the cell), the spec accepts any.
+    returns (events, errors, world, summary of the ops actually executed)"""
+    import glob as _glob
     if os.path.isdir(workdir):
         shutil.rmtree(workdir)
-    # priorities on all potential cells: every cell of level < LMAX gets a distinct random priority
-    pr = {}
     w = World(geo, workdir, priority=None)
     seedv = rng.randrange(1 << 30)
 
@@ -143,29 +111,58 @@ def execute_random(ops, geo, workdir, rng, adpt_fac=1, ncpu=2):
         r = random.Random(hash((cell, lev, seedv)))
         return float(r.choice([1, 2, 3, 5, 7]) * 10 ** r.randint(0, 6))
     w.calc.pri = pri
+    sym = rng.random() < 0.7
     errs = []
-    for o in ops:
-        if o["op"] == "markref":
-            w.mark("MarkRef")
-            w.clear_results()
-            continue
-        m = o["mode"]
+    summary = []
+
+    def go(nit, m, restart=False, ri=-1, shuffle=False):
         lf = None
-        if o.get("shuffle"):
-            def lf(files, rng=rng):
+        if shuffle:
+            def lf(files):
                 f2 = list(files)
                 rng.shuffle(f2)
                 return f2
-        if o["restart"] and not os.path.exists(os.path.join(w.kdir, "K_list.pickle")):
-            break
-        res, err = w.run(o["nit"], parallel=m["par"], dump=m["dump"], allow=m["allow"], sym=m["sym"], restart=o["restart"],
-                         adpt_fac=adpt_fac, schedule=o["sched_fn"], ncpu=ncpu, listing_fn=lf,
-                         klist_part=rng.choice([1, 2, 10]))
+        summary.append(dict(run="restart" if restart else "fresh", nit=nit, ri=ri,
+                            mode="".join(k[0] for k in ("par", "dump", "allow", "sym") if m[k])))
+        res, err = w.run(nit, parallel=m["par"], dump=m["dump"], allow=m["allow"], sym=m["sym"], restart=restart,
+                         adpt_fac=adpt_fac, schedule=random_schedule(rng, rng.random() < 0.5), ncpu=ncpu, listing_fn=lf,
+                         klist_part=rng.choice([1, 2, 10]), restart_iteration=ri)
         if err:
             errs.append(err)
-            break
+        return err
+    if go(niter, random_mode(rng, sym, allow_par)) is None and niter > 0:
+        w.mark("MarkRef")
+        w.clear_results()
+        summary.append("MarkRef")
+        mB = random_mode(rng, sym, allow_par)
+        mB["allow"] = True
+        done = rng.randint(0, niter - 1)
+        err = go(done, mB)
+        steps = 0
+        while err is None and steps < 4:
+            steps += 1
+            its = sorted(int(f.split("-")[-1].split(".")[0]) for f in _glob.glob(os.path.join(w.kdir, "factors_iter-*.npy")))
+            if not its:
+                break
+            ri = -1
+            if back and sym and rng.random() < 0.35:
+                ri = rng.choice([-2, -3, 0, its[0]])
+            if ri >= 0:
+                land = ri
+            else:
+                x = its[-1] + ri + 1
+                land = 0 if x < 0 else max(i for i in its if i <= x)
+            if land >= niter:
+                break
+            n = rng.randint(1, niter - land)
+            m = random_mode(rng, sym, allow_par)
+            m["restart"] = True
+            m["allow"] = True
+            err = go(n, m, restart=True, ri=ri, shuffle=True)
+            if land + n >= niter and rng.random() < 0.7:
+                break
     shutil.rmtree(workdir, ignore_errors=True)
-    return w.events, errs, w
+    return w.events, errs, w, summary
 
 
 def load_behaviours(simdir, limit=None):
